@@ -184,12 +184,12 @@ def parseDec (s : Str) : Option Dec :=
 
 /-- unit table of `time.ParseDuration` (`µs` with U+00B5 and U+03BC, as UTF-8 bytes) -/
 def durUnit (u : Str) : Option Nat :=
-  if u = S "ns" then some 1
-  else if u = S "us" || u = [194, 181, 115] || u = [206, 188, 115] then some 1000
-  else if u = S "ms" then some 1000000
-  else if u = S "s" then some 1000000000
-  else if u = S "m" then some 60000000000
-  else if u = S "h" then some 3600000000000
+  if u = str% "ns" then some 1
+  else if u = str% "us" || u = [194, 181, 115] || u = [206, 188, 115] then some 1000
+  else if u = str% "ms" then some 1000000
+  else if u = str% "s" then some 1000000000
+  else if u = str% "m" then some 60000000000
+  else if u = str% "h" then some 3600000000000
   else none
 
 /-- the `for s != ""` loop of `time.ParseDuration` for groups `digits unit` (a `.` is outside the modelled grammar) -/
@@ -227,8 +227,8 @@ def parseDur (s : Str) : Option Int :=
     | some d => if neg then some (- Int.ofNat d) else if d > 2 ^ 63 - 1 then none else some (Int.ofNat d)
 
 def parseBool (s : Str) : Option Bool :=
-  if s = S "1" || s = S "t" || s = S "T" || s = S "TRUE" || s = S "true" || s = S "True" then some true
-  else if s = S "0" || s = S "f" || s = S "F" || s = S "FALSE" || s = S "false" || s = S "False" then some false
+  if s = str% "1" || s = str% "t" || s = str% "T" || s = str% "TRUE" || s = str% "true" || s = str% "True" then some true
+  else if s = str% "0" || s = str% "f" || s = str% "F" || s = str% "FALSE" || s = str% "false" || s = str% "False" then some false
   else none
 
 def isHexDigit (c : Nat) : Bool := isDigit c || (97 ≤ c && c ≤ 102) || (65 ≤ c && c ≤ 70)
@@ -306,10 +306,10 @@ structure Cfg where
   cost : SMap Int
 deriving Repr, Inhabited
 
-def Cfg.val (c : Cfg) (name : String) : Val := (c.get.find (S name)).getD .none
-def Cfg.int (c : Cfg) (name : String) : Int := (c.val name).toInt
-def Cfg.dec (c : Cfg) (name : String) : Dec := (c.val name).toDec
-def Cfg.owner (c : Cfg) : Str := (c.val "owner_id").toStr
+def Cfg.val (c : Cfg) (name : Str) : Val := (c.get.find name).getD .none
+def Cfg.int (c : Cfg) (name : Str) : Int := (c.val name).toInt
+def Cfg.dec (c : Cfg) (name : Str) : Dec := (c.val name).toDec
+def Cfg.owner (c : Cfg) : Str := (c.val (str% "owner_id")).toStr
 
 def Cfg.apply (c : Cfg) : Write → Cfg
   | .field n v => { c with get := c.get.insert n v }
@@ -319,25 +319,25 @@ def Cfg.apply (c : Cfg) : Write → Cfg
 /-! ## key resolution per contract: `(key, value) ↦ error | write` (independent of the state) -/
 
 open ZChain.Generated.C48 in
-def findEntry (tbl : List Entry) (k : Str) : Option Entry := tbl.find? fun e => S e.name = k
+def findEntry (tbl : List Entry) (k : Str) : Option Entry := tbl.find? fun e => e.key = k
 
-/-- the value produced by the parser calls of a `set` case / key-switch case (names from the generated tables) -/
-def parseBy (P : Parsers) (calls : List String) (v : Str) : Option (Option Val) :=
-  if calls = ["strconv.Atoi"] then some ((P.atoi v).map .int)
-  else if calls = ["strconv.ParseInt"] then some ((P.int64 v).map .int)
-  else if calls = ["strconv.ParseUint", "currency.Coin"] then some ((P.uint64 v).map .int)
-  else if calls = ["strconv.ParseFloat"] then some ((P.float v).map .dec)
-  else if calls = ["strconv.ParseFloat", "currency.ParseZCN"] then some (((P.float v).bind P.zcn).map .int)
-  else if calls = ["strconv.ParseFloat", "currency.MultFloat64"] then some (((P.float v).bind P.mult1e10).map .int)
-  else if calls = ["strconv.ParseFloat", "currency.Coin"] then some (((P.float v).bind P.rawCoin).map .int)
-  else if calls = ["time.ParseDuration"] then some ((P.dur v).map .int)
-  else if calls = ["strconv.ParseBool"] then some ((P.bool v).map .bool)
-  else if calls = ["hex.DecodeString"] then some (if P.hex v then some (.str v) else none)
-  else if calls = [] then some (some (.str v))
-  else none
+/-- the value produced by the parser / conversion calls of a `set` case or key-switch case (`none` = error) -/
+def parseBy (P : Parsers) (pk : PK) (v : Str) : Option Val :=
+  match pk with
+  | .atoi => (P.atoi v).map .int
+  | .int64 => (P.int64 v).map .int
+  | .uint64coin => (P.uint64 v).map .int
+  | .float => (P.float v).map .dec
+  | .zcn => ((P.float v).bind P.zcn).map .int
+  | .mult1e10 => ((P.float v).bind P.mult1e10).map .int
+  | .rawCoin => ((P.float v).bind P.rawCoin).map .int
+  | .dur => (P.dur v).map .int
+  | .bool => (P.bool v).map .bool
+  | .hex => if P.hex v then some (.str v) else none
+  | .raw => some (.str v)
 
 /-- `isCost` of minersc/storagesc: `len(key) > len("cost.") && key[:5] == "cost."` -/
-def isCost (k : Str) : Bool := decide (k.length > 5) && hasPrefix k (S "cost.")
+def isCost (k : Str) : Bool := decide (k.length > 5) && hasPrefix k (str% "cost.")
 
 /-- `GlobalNode.set` (minersc) / `Config.set` (storagesc): table-driven. -/
 def setKey (P : Parsers) (tbl : List Entry) (disp : List Dispatch) (k v : Str) : Except KeyErr Write :=
@@ -352,9 +352,8 @@ def setKey (P : Parsers) (tbl : List Entry) (disp : List Dispatch) (k v : Str) :
       | none => .error .unsupported
       | some d =>
         match parseBy P d.parse v with
-        | none => .error .unsupported
-        | some none => .error .unparsable
-        | some (some x) =>
+        | none => .error .unparsable
+        | some x =>
           if d.setter = e.setter then .ok (.field k x)
           else if d.setter = "setKey" then .error .panic
           else .error .notImpl
@@ -370,7 +369,7 @@ def storageKey (P : Parsers) (k v : Str) : Except KeyErr Write :=
 def costValue (P : Parsers) (pfx : Str) (fns : List String) (k v : Str) : Except KeyErr Write :=
   if !hasPrefix k pfx then .error .unknown
   else
-    let ck := toLower (trimPrefix k (S "cost."))
+    let ck := toLower (trimPrefix k (str% "cost."))
     if fns.any fun f => toLower (S f) = ck then
       match P.atoi v with
       | none => .error .unparsable
@@ -380,32 +379,31 @@ def costValue (P : Parsers) (pfx : Str) (fns : List String) (k v : Str) : Except
 /-- the `switch key` of faucetsc `updateConfig`, vestingsc `update`, zcnsc `UpdateConfig` -/
 def switchKey (P : Parsers) (cases : List KeyCase) (deflt : List String) (costPfx : Str) (fns : List String)
     (k v : Str) : Except KeyErr Write :=
-  match cases.find? fun c => S c.name = k with
+  match cases.find? fun c => c.key = k with
   | some c =>
     if c.calls = ["setCostValue"] then costValue P costPfx fns k v
     else match parseBy P c.parse v with
-      | none => .error .unsupported
-      | some none => .error .unparsable
-      | some (some x) => .ok (.field k x)
+      | none => .error .unparsable
+      | some x => .ok (.field k x)
   | none =>
     if deflt = ["setCostValue"] ∨ deflt = ["return", "setCostValue"] then costValue P costPfx fns k v else .error .unknown
 
 /-- `default: return x.setCostValue(key, value)` (faucetsc, vestingsc) leaves the whole `for … range` loop — also when
 the cost was set successfully: the keys the runtime would have enumerated later are silently dropped. -/
 def switchStops (cases : List KeyCase) (deflt : List String) (k : Str) : Bool :=
-  (cases.find? fun c => S c.name = k).isNone && deflt.head? = some "return"
+  (cases.find? fun c => c.key = k).isNone && deflt.head? = some "return"
 
 open Generated.C48 in
 def faucetKey (P : Parsers) (k v : Str) : Except KeyErr Write :=
-  switchKey P faucet faucetDefault (S "cost") faucetCostFns k v
+  switchKey P faucet faucetDefault (str% "cost") faucetCostFns k v
 
 open Generated.C48 in
 def vestingKey (P : Parsers) (k v : Str) : Except KeyErr Write :=
-  switchKey P vesting vestingDefault (S "cost") vestingCostFns k v
+  switchKey P vesting vestingDefault (str% "cost") vestingCostFns k v
 
 open Generated.C48 in
 def zcnKey (P : Parsers) (k v : Str) : Except KeyErr Write :=
-  switchKey P zcn zcnDefault (S "cost.") zcnCostFns k v
+  switchKey P zcn zcnDefault (str% "cost.") zcnCostFns k v
 
 /-- `config.StringToInterface(value, type)` succeeds? (`Key`/`Cost` panic) -/
 def stringToInterfaceOk (P : Parsers) (ct : CT) (v : Str) : Except KeyErr Unit :=
@@ -456,81 +454,81 @@ def firstFailing (checks : List Bool) : Option Nat :=
 
 /-- `minersc GlobalNode.validate` -/
 def minerChecks (c : Cfg) : List Bool := [
-  decide (c.int "min_n" < 1),
-  decide (c.int "max_n" < c.int "min_n"),
-  decide (c.int "min_s" < 1),
-  decide (c.int "max_s" < c.int "min_s"),
-  decide (c.int "max_delegates" ≤ 0),
-  decide (c.int "num_sharder_delegates_rewarded" < 0),
-  decide (c.int "num_miner_delegates_rewarded" < 0),
-  decide (c.int "num_sharders_rewarded" < 0)]
+  decide (c.int (str% "min_n") < 1),
+  decide (c.int (str% "max_n") < c.int (str% "min_n")),
+  decide (c.int (str% "min_s") < 1),
+  decide (c.int (str% "max_s") < c.int (str% "min_s")),
+  decide (c.int (str% "max_delegates") ≤ 0),
+  decide (c.int (str% "num_sharder_delegates_rewarded") < 0),
+  decide (c.int (str% "num_miner_delegates_rewarded") < 0),
+  decide (c.int (str% "num_sharders_rewarded") < 0)]
 
 /-- `storagesc Config.validate` -/
 def storageChecks (c : Cfg) : List Bool := [
-  decide (c.int "time_unit" ≤ 1000000000),
-  (c.dec "validator_reward").ltInt 0 || (c.dec "validator_reward").gtInt 1,
-  (c.dec "blobber_slash").ltInt 0 || (c.dec "blobber_slash").gtInt 1,
-  (c.dec "cancellation_charge").ltInt 0 || (c.dec "cancellation_charge").gtInt 1,
-  decide (c.int "max_blobbers_per_allocation" ≤ 0),
-  decide (c.int "min_blobber_capacity" < 0),
-  decide (c.int "max_challenge_completion_rounds" < 0),
-  decide (c.int "health_check_period" ≤ 0),
-  decide (c.int "min_alloc_size" < 0),
-  decide (c.int "max_write_price" < c.int "min_write_price"),
-  (c.dec "stakepool.kill_slash").ltInt 0 || (c.dec "stakepool.kill_slash").gtInt 1,
-  decide (c.int "free_allocation_settings.data_shards" < 0),
-  decide (c.int "free_allocation_settings.parity_shards" < 0),
-  decide (c.int "free_allocation_settings.size" < 0),
-  !decide (c.int "free_allocation_settings.read_price_range.min" ≤ c.int "free_allocation_settings.read_price_range.max"),
-  !decide (c.int "free_allocation_settings.write_price_range.min" ≤ c.int "free_allocation_settings.write_price_range.max"),
-  (c.dec "free_allocation_settings.read_pool_fraction").ltInt 0 || (c.dec "free_allocation_settings.read_pool_fraction").gtInt 1,
-  decide (c.int "validators_per_challenge" ≤ 0),
-  decide (c.int "num_validators_rewarded" ≤ 0),
-  decide (c.int "max_blobber_select_for_challenge" ≤ 0),
-  decide (c.int "max_stake" < c.int "min_stake"),
-  decide (c.int "max_delegates" < 1),
-  (c.dec "max_charge").ltInt 0,
-  (c.dec "max_charge").gtInt 1,
+  decide (c.int (str% "time_unit") ≤ 1000000000),
+  (c.dec (str% "validator_reward")).ltInt 0 || (c.dec (str% "validator_reward")).gtInt 1,
+  (c.dec (str% "blobber_slash")).ltInt 0 || (c.dec (str% "blobber_slash")).gtInt 1,
+  (c.dec (str% "cancellation_charge")).ltInt 0 || (c.dec (str% "cancellation_charge")).gtInt 1,
+  decide (c.int (str% "max_blobbers_per_allocation") ≤ 0),
+  decide (c.int (str% "min_blobber_capacity") < 0),
+  decide (c.int (str% "max_challenge_completion_rounds") < 0),
+  decide (c.int (str% "health_check_period") ≤ 0),
+  decide (c.int (str% "min_alloc_size") < 0),
+  decide (c.int (str% "max_write_price") < c.int (str% "min_write_price")),
+  (c.dec (str% "stakepool.kill_slash")).ltInt 0 || (c.dec (str% "stakepool.kill_slash")).gtInt 1,
+  decide (c.int (str% "free_allocation_settings.data_shards") < 0),
+  decide (c.int (str% "free_allocation_settings.parity_shards") < 0),
+  decide (c.int (str% "free_allocation_settings.size") < 0),
+  !decide (c.int (str% "free_allocation_settings.read_price_range.min") ≤ c.int (str% "free_allocation_settings.read_price_range.max")),
+  !decide (c.int (str% "free_allocation_settings.write_price_range.min") ≤ c.int (str% "free_allocation_settings.write_price_range.max")),
+  (c.dec (str% "free_allocation_settings.read_pool_fraction")).ltInt 0 || (c.dec (str% "free_allocation_settings.read_pool_fraction")).gtInt 1,
+  decide (c.int (str% "validators_per_challenge") ≤ 0),
+  decide (c.int (str% "num_validators_rewarded") ≤ 0),
+  decide (c.int (str% "max_blobber_select_for_challenge") ≤ 0),
+  decide (c.int (str% "max_stake") < c.int (str% "min_stake")),
+  decide (c.int (str% "max_delegates") < 1),
+  (c.dec (str% "max_charge")).ltInt 0,
+  (c.dec (str% "max_charge")).gtInt 1,
   (c.owner).isEmpty,
-  (c.dec "block_reward.gamma.a").leInt 0,
-  (c.dec "block_reward.gamma.b").leInt 0,
-  (c.dec "block_reward.gamma.alpha").leInt 0,
-  (c.dec "block_reward.zeta.mu").leInt 0,
-  (c.dec "block_reward.zeta.i").leInt 0,
-  (c.dec "block_reward.zeta.k").leInt 0]
+  (c.dec (str% "block_reward.gamma.a")).leInt 0,
+  (c.dec (str% "block_reward.gamma.b")).leInt 0,
+  (c.dec (str% "block_reward.gamma.alpha")).leInt 0,
+  (c.dec (str% "block_reward.zeta.mu")).leInt 0,
+  (c.dec (str% "block_reward.zeta.i")).leInt 0,
+  (c.dec (str% "block_reward.zeta.k")).leInt 0]
 
 /-- `toSeconds(d) = d / time.Second` (Go integer division truncates toward zero) -/
 def toSeconds (ns : Int) : Int := Int.tdiv ns 1000000000
 
 /-- `faucetsc GlobalNode.validate` -/
 def faucetChecks (c : Cfg) : List Bool := [
-  decide (c.int "pour_amount" < 1),
-  decide (c.int "pour_amount" > c.int "max_pour_amount"),
-  decide (c.int "max_pour_amount" > c.int "periodic_limit"),
-  decide (c.int "periodic_limit" > c.int "global_limit"),
-  decide (toSeconds (c.int "individual_reset") < 1),
-  decide (c.int "global_rest" < c.int "individual_reset")]
+  decide (c.int (str% "pour_amount") < 1),
+  decide (c.int (str% "pour_amount") > c.int (str% "max_pour_amount")),
+  decide (c.int (str% "max_pour_amount") > c.int (str% "periodic_limit")),
+  decide (c.int (str% "periodic_limit") > c.int (str% "global_limit")),
+  decide (toSeconds (c.int (str% "individual_reset")) < 1),
+  decide (c.int (str% "global_rest") < c.int (str% "individual_reset"))]
 
 /-- `vestingsc config.validate` (never called by `updateConfig`) -/
 def vestingChecks (c : Cfg) : List Bool := [
-  decide (toSeconds (c.int "min_duration") < 1),
-  decide (toSeconds (c.int "max_duration") ≤ toSeconds (c.int "min_duration")),
-  decide (c.int "max_destinations" < 1),
-  decide (c.int "max_description_length" < 1),
+  decide (toSeconds (c.int (str% "min_duration")) < 1),
+  decide (toSeconds (c.int (str% "max_duration")) ≤ toSeconds (c.int (str% "min_duration"))),
+  decide (c.int (str% "max_destinations") < 1),
+  decide (c.int (str% "max_description_length") < 1),
   (c.owner).isEmpty]
 
 /-- `zcnsc GlobalNode.Validate` -/
 def zcnChecks (c : Cfg) : List Bool := [
-  decide (c.int "min_stake" < 1),
-  decide (c.int "max_stake" < 1),
-  decide (c.int "min_mint" < 1),
-  decide (c.int "max_fee" < 1),
-  decide (c.int "min_authorizers" < 1),
-  decide (c.int "min_burn" < 1),
-  (c.dec "percent_authorizers").ltInt 0,
+  decide (c.int (str% "min_stake") < 1),
+  decide (c.int (str% "max_stake") < 1),
+  decide (c.int (str% "min_mint") < 1),
+  decide (c.int (str% "max_fee") < 1),
+  decide (c.int (str% "min_authorizers") < 1),
+  decide (c.int (str% "min_burn") < 1),
+  (c.dec (str% "percent_authorizers")).ltInt 0,
   (c.owner).isEmpty,
-  decide (c.int "max_delegates" ≤ 0),
-  decide (c.int "health_check_period" ≤ 0)]
+  decide (c.int (str% "max_delegates") ≤ 0),
+  decide (c.int (str% "health_check_period") ≤ 0)]
 
 /-! ## contracts -/
 
@@ -653,18 +651,36 @@ deriving Repr, Inhabited
 
 def mergeStaged (staged new : SMap Str) : SMap Str := new.foldl (fun s p => s.insert p.1 p.2) staged
 
-/-- `updateSettings`. `postDemeter`: the `after` branch of `WithActivation("demeter")` saves `conf`. -/
-def storageUpdate (P : Parsers) (postDemeter : Bool) (ord : MapOrder) (caller : Str) (input : Input) (s : Storage) : Res × Storage :=
+/-- the calls inside the `before[ … ]` / `after[ … ]` branch of the `WithActivation` entry of a generated flow -/
+def branchCalls (flow : List String) (tag : String) : List String :=
+  ((flow.dropWhile (· ≠ tag)).drop 1).takeWhile (· ≠ "]")
+
+/-- what the fork-gated tail of storagesc `updateSettings` does in the branch in force: (saves the config?, validates before?) -/
+def storageBranch (postDemeter : Bool) : Bool × Bool :=
+  let b := branchCalls (flowOf "storagesc.updateSettings") (if postDemeter then "after[" else "before[")
+  (b.any (fun x => x.toList.take 4 = "save".toList), validatesBeforeSave b (fun x => x.toList.take 4 = "save".toList))
+
+/-- `updateSettings`: merge the new changes into the staged map, apply the *whole* staged map to the configuration
+(map order `ord`), store the staged map, and — in the branch of `WithActivation("demeter")` in force — `saves`
+the configuration, `validates` first or not (`storageBranch`: today `before` does nothing and `after` saves
+without validating). -/
+def storageUpdate (P : Parsers) (saves validates : Bool) (ord : MapOrder) (caller : Str) (input : Input) (s : Storage) : Res × Storage :=
   if s.conf.owner ≠ caller then (.unauthorized, s)
   else match input with
     | none => (.decode, s)
     | some m =>
       if m.isEmpty then (.ok false, s)
       else
-        let st := mergeStaged s.staged m
-        match applyAll (storageKey P) (fun _ => false) (ord st) s.conf with
+        match applyAll (storageKey P) (fun _ => false) (ord (mergeStaged s.staged m)) s.conf with
         | .error (k, e) => (.key k e, s)
-        | .ok c' => (.ok false, { conf := if postDemeter then c' else s.conf, staged := st })
+        | .ok c' =>
+          if saves then
+            if validates then
+              match Contract.validate .storage c' with
+              | some i => (.invalid i, s)
+              | none => (.ok false, { conf := c', staged := mergeStaged s.staged m })
+            else (.ok false, { conf := c', staged := mergeStaged s.staged m })
+          else (.ok false, { conf := s.conf, staged := mergeStaged s.staged m })
 
 /-- `commitSettingChanges`: any caller. -/
 def storageCommit (P : Parsers) (validates : Bool) (ord : MapOrder) (s : Storage) : Res × Storage :=
